@@ -1,28 +1,88 @@
-(* Props/C01.v -- property C01 (provisional: the general theorems are being added;
-   these instances already go through the generated enum order and kicker table) *)
-From Coq Require Import NArith List.
-From RP Require Import Base.Bits Model.Codec Model.Evaluator Spec.SpecPoker Spec.SpecStrength.
+(* Props/C01.v -- property C01: the bitwise hand evaluator computes the rule-book ranking. *)
+From Coq Require Import NArith List Bool.
+From RP Require Import Base.Bits Gen.GenCards Model.Codec Model.Evaluator
+  Spec.SpecPoker Spec.SpecStrength Spec.SpecHand
+  Proofs.C01_Order Proofs.C01_Main Proofs.C01_Suits Proofs.C01_Examples.
 Import ListNotations.
 Open Scope N_scope.
 
-Definition hand_of (cs : list N) : N := mask_of_bits cs.
-Definition card (r s : N) : N := 4 * r + s.
-(* AsKsQsJs9s, AhAdAcKhKd, AsKsQsJs8s *)
-Definition flush_A9 := hand_of [card 12 3; card 11 3; card 10 3; card 9 3; card 7 3].
-Definition flush_A8 := hand_of [card 12 3; card 11 3; card 10 3; card 9 3; card 6 3].
-Definition full_AK := hand_of [card 12 2; card 12 1; card 12 0; card 11 2; card 11 1].
-Definition cmp_hands (d : deck) (a b : N) : option comparison :=
-  match strength_of d a, strength_of d b with Some x, Some y => Some (cmp_strength d x y) | _, _ => None end.
+(* T1: on every hand of 5..7 cards of the configured deck the evaluator returns a strength,
+   and that strength denotes the value of the best five-card sub-hand *)
+Theorem C01_strength_is_best5 : forall d h, valid_hand d h ->
+  exists s, strength_of d h = Some s /\ strength_value d s = best5 d (hand_cards h).
+Proof. exact strength_is_best5. Qed.
+Print Assumptions C01_strength_is_best5.
 
-Theorem C01_flush_below_full_house_standard :
-  cmp_hands Standard flush_A9 full_AK = Some Lt /\ cmp_spec Standard (hand_cards flush_A9) (hand_cards full_AK) = Lt.
-Proof. split; vm_compute; reflexivity. Qed.
-Print Assumptions C01_flush_below_full_house_standard.
-Theorem C01_flush_above_full_house_short :
-  cmp_hands Short flush_A9 full_AK = Some Gt /\ cmp_spec Short (hand_cards flush_A9) (hand_cards full_AK) = Gt.
-Proof. split; vm_compute; reflexivity. Qed.
-Print Assumptions C01_flush_above_full_house_short.
-Theorem C01_flush_kickers_count :
-  cmp_hands Standard flush_A9 flush_A8 = Some Gt /\ cmp_spec Standard (hand_cards flush_A9) (hand_cards flush_A8) = Gt.
-Proof. split; vm_compute; reflexivity. Qed.
-Print Assumptions C01_flush_kickers_count.
+(* T2: the derived order on strengths is the rule-book order on hands *)
+Theorem C01_order : forall d h1 h2, valid_hand d h1 -> valid_hand d h2 ->
+  exists s1 s2, strength_of d h1 = Some s1 /\ strength_of d h2 = Some s2 /\
+    cmp_strength d s1 s2 = cmp_spec d (hand_cards h1) (hand_cards h2).
+Proof. exact strength_order. Qed.
+Print Assumptions C01_order.
+
+(* the evaluator only produces well-formed strengths *)
+Theorem C01_strength_wf : forall d h s, valid_hand d h -> strength_of d h = Some s -> wf_strength d s.
+Proof. exact strength_wf. Qed.
+Print Assumptions C01_strength_wf.
+
+(* T3: on well-formed strengths, derive(Ord) (variant position from the generated enum order,
+   then fields, then kicker mask) is the numeric order of the rule-book value *)
+Theorem C01_value_mono : forall d s1 s2, wf_strength d s1 -> wf_strength d s2 ->
+  cmp_strength d s1 s2 = N.compare (strength_value d s1) (strength_value d s2).
+Proof. exact cmp_strength_value. Qed.
+Print Assumptions C01_value_mono.
+
+(* T4: suits never matter -- relabelling the four suits by any permutation keeps the hand valid,
+   leaves the evaluator's strength unchanged, and leaves the rule-book value unchanged *)
+Theorem C01_suits_irrelevant : forall d p h, suit_perm p -> valid_hand d h ->
+  strength_of d (relabel_hand p h) = strength_of d h.
+Proof. exact relabel_strength. Qed.
+Print Assumptions C01_suits_irrelevant.
+
+Theorem C01_suits_irrelevant_spec : forall d p h, suit_perm p -> valid_hand d h ->
+  best5 d (hand_cards (relabel_hand p h)) = best5 d (hand_cards h).
+Proof. exact relabel_best5. Qed.
+Print Assumptions C01_suits_irrelevant_spec.
+
+Theorem C01_relabel_valid : forall d p h, suit_perm p -> valid_hand d h -> valid_hand d (relabel_hand p h).
+Proof. exact relabel_valid. Qed.
+Print Assumptions C01_relabel_valid.
+
+(* hypotheses are satisfiable: concrete valid hands (5 and 7 cards), concrete well-formed strengths *)
+Example C01_ex_valid : forall d, Forall (valid_hand d) (h_flush8 :: h_seven :: nine_hands).
+Proof. exact ex_valid. Qed.
+Example C01_ex_wf : forall d, wf_strength d (mkStrength (mkRanking TwoPair 12 11) 1024)
+                           /\ wf_strength d (mkStrength (mkRanking Flush 12 0) 2696).
+Proof. exact ex_wf. Qed.
+
+(* a non-trivial suit permutation (clubs <-> spades) that really moves a valid 7-card hand *)
+Example C01_ex_perm : suit_perm swap03.
+Proof. exact swap03_perm. Qed.
+Example C01_ex_relabel : forall d,
+  relabel_hand swap03 h_seven <> h_seven /\
+  strength_of d (relabel_hand swap03 h_seven) = strength_of d h_seven.
+Proof. exact ex_relabel. Qed.
+
+(* each of the nine classes is hit, in both decks *)
+Example C01_ex_nine_classes : forall d,
+  map (fun h => option_map (fun s => rcat (svalue s)) (strength_of d h)) nine_hands
+  = map Some [HighCard; OnePair; TwoPair; ThreeOAK; Straight; Flush; FullHouse; FourOAK; StraightFlush].
+Proof. exact ex_nine_classes. Qed.
+
+(* the lowest straight of each deck *)
+Example C01_ex_wheels :
+  option_map svalue (strength_of Standard h_wheel_std) = Some (mkRanking Straight 3 0) /\
+  option_map svalue (strength_of Short h_wheel_short) = Some (mkRanking Straight 7 0).
+Proof. exact ex_wheels. Qed.
+
+(* AsKsQsJs9s (flush) < AhAdAcKhKd (full house) in Standard, > in Short; model and spec *)
+Example C01_ex_flush_vs_full :
+  cmp_hands Standard h_flush h_full = Some Lt /\ cmp_hands Short h_flush h_full = Some Gt /\
+  cmp_spec Standard (hand_cards h_flush) (hand_cards h_full) = Lt /\
+  cmp_spec Short (hand_cards h_flush) (hand_cards h_full) = Gt.
+Proof. exact ex_flush_vs_full. Qed.
+
+(* AsKsQsJs9s > AsKsQsJs8s: the kickers of a flush count *)
+Example C01_ex_flush_kickers : forall d,
+  cmp_hands d h_flush h_flush8 = Some Gt /\ cmp_spec d (hand_cards h_flush) (hand_cards h_flush8) = Gt.
+Proof. exact ex_flush_kickers. Qed.
